@@ -117,6 +117,7 @@ pub open spec fn installed(t: Map<Uid, Room>, rooms: Seq<Room>) -> bool {
                                     }
                                 }
 //@ insert before-stmt "let _ = query.reply.send(Ok(query.mutation_query));"
+                            proof { assert(rooms0.subrange(0, rooms0.len() as int) =~= rooms0); }
                             // [every_written_room_announced_before_the_answer] when the caller is answered, every room of the acknowledged change is installed and was announced, in order
                             assert(announced =~= rooms0 && installed(auth.rooms@, rooms0));
 //@ end
@@ -150,6 +151,7 @@ pub open spec fn installed(t: Map<Uid, Room>, rooms: Seq<Room>) -> bool {
                                     }
                                 }
 //@ insert before-stmt "let _ = query.reply.send(Ok(query.mutation_query)).await;"
+                            proof { assert(rooms0.subrange(0, rooms0.len() as int) =~= rooms0); }
                             // [every_written_stream_room_announced_before_the_answer]
                             assert(announced =~= rooms0 && installed(auth.rooms@, rooms0));
 //@ end
@@ -272,7 +274,21 @@ impl Parameters {
 pub fn params_or_default(p: Option<Parameters>) -> (r: Parameters) { unimplemented!() }       // E23: Option::unwrap_or_default
 #[verifier::external_body]
 pub fn fmt_stub(s: &str) -> (r: String) { unimplemented!() }                                   // E16: str::to_string
-pub struct DeletionQuery { x: u8 }
+// the real deletion query and what it is made of (plain data): a change that looks inside it is decided rather than refused by the front end
+//@ extract src/database/node.rs :: struct Node
+//@ end
+//@ extract src/database/edge.rs :: struct Edge
+//@ end
+//@ extract src/database/node.rs :: struct NodeDeletionEntry
+//@ end
+//@ extract src/database/edge.rs :: struct EdgeDeletionEntry
+//@ end
+//@ extract src/database/deletion.rs :: struct NodeDelete
+//@ end
+//@ extract src/database/deletion.rs :: struct EdgeDelete
+//@ end
+//@ extract src/database/deletion.rs :: struct DeletionQuery
+//@ end
 pub struct RecvError { x: u8 }
 impl From<RecvError> for Error { #[verifier::external_body] fn from(e: RecvError) -> Error { unimplemented!() } }
 pub mod oneshot {
